@@ -450,6 +450,40 @@ def check(model, rep):
                        'together with the pose of that vector: the state left after a failed solve is coherent')
     from .c05 import fk_core
     fk_core(rep, 'R07.10', arm.methods['FK'])
+    # ---------------------------------------------------------------- R07.11
+    # A solver entry point that hands FK its own array and then returns THAT array reports the configuration FK evaluated only if the clamp
+    # inside FK works in place.  (Returning the stored joints or the clamp's result is independent of that.)
+    rep.rule('R07.11', 'a method that returns the array it handed to self.FK(...) relies on the in-place clamp: thetaProtector returns its argument object '
+                       'on every clamping path (case analysis of the clamp), so the returned joints are the ones evaluated, checked and stored')
+    from .c05 import clamp_rule as _clamp_rule
+    from .clampcase import analyse as _clamp_analyse
+    from .common_ops import flat_method as _fm711
+    tp711 = arm.methods.get('thetaProtector')
+    res711 = _clamp_analyse(_fm711(arm, 'thetaProtector').node, tp711.params[1]) if tp711 is not None else {'fresh_on_clamp': False, 'unknown': 'missing'}
+    n711 = 0
+    for name_, fi_ in sorted(arm.methods.items()):
+        handed = {}
+        for c_ in walk_own(fi_.node):
+            if isinstance(c_, ast.Call) and src(c_.func) == 'self.FK' and c_.args and isinstance(c_.args[0], ast.Name) \
+                    and not any(k_.arg == 'protect' for k_ in c_.keywords) and len(c_.args) < 2:
+                handed.setdefault(c_.args[0].id, c_.lineno)
+        if not handed:
+            continue
+        for r_ in [x_ for x_ in walk_own(fi_.node) if isinstance(x_, ast.Return) and x_.value is not None]:
+            elts = r_.value.elts if isinstance(r_.value, ast.Tuple) else [r_.value]
+            for e_ in elts:
+                if isinstance(e_, ast.Name) and e_.id in handed and r_.lineno >= handed[e_.id]:
+                    # re-bound in between (theta = self._theta.copy(), theta = self.thetaProtector(theta)): not the handed object any more
+                    rebound = any(isinstance(a_, ast.Assign) and any(isinstance(t_, ast.Name) and t_.id == e_.id for t_ in a_.targets)
+                                  and handed[e_.id] < a_.lineno <= r_.lineno for a_ in walk_own(fi_.node))
+                    if rebound:
+                        continue
+                    n711 += 1
+                    rep.ob('R07.11', fi_, '%s returns `%s`, the array it handed to FK (line %d)' % (name_, e_.id, handed[e_.id]), not res711.get('fresh_on_clamp'),
+                           '%s evaluates self.FK(%s) for its success test and returns `%s` itself, but thetaProtector gives FK a NEW clamped array when a joint is out of '
+                           'range: the caller gets the unclamped solver output together with success = True, while the pose that was checked and the state that was '
+                           'stored belong to the clamped vector (joints outside their limits, goal not reached)' % (name_, e_.id, e_.id), line=r_.lineno)
+    rep.count('R07.11 returns of an array handed to FK', n711)
     from .c02 import closure_obligations
     n = closure_obligations(model, rep, 'R07.7', [kc, arm.methods['IK'], arm.methods['constrainedIK']], 'the Newton IK solvers (FKinSpace, JacobianSpace, MatrixLog6, Adjoint, TransInv, IKinSpace)')
     rep.floor('R07.7', 'shared primitives under the IK solvers', len(n), 10)
